@@ -1818,7 +1818,7 @@ class Tag(PageElement):
             interesting_string_types=self.interesting_string_types,
             namespaces=self._namespaces,
         )
-        for attr in ("can_be_empty_element", "hidden"):
+        for attr in ("can_be_empty_element", "hidden", "attribute_value_list_class"):
             setattr(clone, attr, getattr(self, attr))
 
         # The clone has exactly the attributes of the original, in a
